@@ -154,7 +154,6 @@ func (e *Enc) hasTinv(t types.Type) bool {
 func (e *Enc) invPlaces(addr string, t types.Type, out *[][2]interface{}) {
 	if e.tinvName(t) != "" {
 		*out = append(*out, [2]interface{}{addr, t})
-		return
 	}
 	if !isStruct(t) {
 		return
@@ -291,4 +290,114 @@ func (e *Enc) elemStoreOblige(cur *cursor, v string, t types.Type, pos token.Pos
 	}
 	tag := cur.fc.tag
 	e.oblige(cur.guard, "elem", fmt.Sprintf("%snonnil#%d", tag, e.ordinal(tag+"elem")), fmt.Sprintf("(not (= %s %s))", v, e.nilOfType(t)), []string{"C01"}, pos, "element invariant: "+what+" must not be nil")
+}
+
+// ---------------------------------------------------------------- lazily allocated local variables
+//
+// A named local variable whose address escapes is heap-allocated by the compiler at its declaration.
+// Until its address is actually used as a value nobody else can hold a pointer to it, so it is
+// modelled as a plain local; at the first escaping use it is "materialised": a fresh address is
+// allocated at that moment (so it is distinct from everything any earlier callee could have
+// returned), the current value is written there (its type invariants are proved then), and from then
+// on the variable lives in the heap.  This is only done when no escaping use sits in a loop that
+// does not also contain the declaration (otherwise one variable would get several addresses).
+
+func (e *Enc) lazyOK(fc *fctx, x *ssa.Alloc) bool {
+	if _, ok := isLocalVarAlloc(x); !ok {
+		return false
+	}
+	et := x.Type().(*types.Pointer).Elem()
+	if _, isArr := et.Underlying().(*types.Array); isArr {
+		return false
+	}
+	var sites []ssa.Instruction
+	var walk func(v ssa.Value) bool
+	walk = func(v ssa.Value) bool {
+		refs := v.Referrers()
+		if refs == nil {
+			return false
+		}
+		for _, r := range *refs {
+			switch u := r.(type) {
+			case *ssa.Store:
+				if u.Val == v {
+					sites = append(sites, u)
+				}
+			case *ssa.UnOp, *ssa.DebugRef:
+			case *ssa.FieldAddr:
+				if !walk(u) {
+					return false
+				}
+			case *ssa.IndexAddr:
+				return false
+			default:
+				sites = append(sites, r)
+			}
+		}
+		return true
+	}
+	if !walk(x) {
+		return false
+	}
+	for _, site := range sites {
+		for _, l := range fc.loops {
+			if l.blocks[site.Block()] && !l.blocks[x.Block()] {
+				return false
+			}
+		}
+	}
+	return true
+}
+
+func (e *Enc) materialize(cur *cursor, x *ssa.Alloc) string {
+	if a, ok := cur.st.mat[x]; ok {
+		return a
+	}
+	et := x.Type().(*types.Pointer).Elem()
+	val, ok := cur.st.loc[x]
+	if !ok {
+		val = e.m.zero(et)
+	}
+	if e.hasTinv(et) {
+		tag := cur.fc.tag
+		e.oblige(cur.guard, "tinv", fmt.Sprintf("%spublish#%d", tag, e.ordinal(tag+"publish")), e.tinvTerm(cur.st, val, et), []string{"C01"}, x.Pos(), "type invariants of local variable "+x.Comment+" must hold when its address escapes")
+	}
+	a := e.allocAddr(cur)
+	e.storeAt(cur.st, a, et, val)
+	cur.st.mat[x] = a
+	delete(cur.st.loc, x)
+	return a
+}
+
+// heapValForPath: the pointer value a.f1.f2... for a materialised variable at address a.
+func (e *Enc) heapValForPath(a string, t types.Type, path []int, ty types.Type) Val {
+	var outer []outerRef
+	for k, i := range path {
+		si := e.m.structOf(t)
+		ft := si.st.Field(i).Type()
+		outer = append(outer, outerRef{a, t})
+		if isStruct(ft) && e.m.structOf(ft) != nil {
+			a = fmt.Sprintf("(Fld %s %d)", a, i)
+			t = ft
+			continue
+		}
+		_ = k
+		return Val{K: vFieldRef, Base: a, SI: si, Field: i, Ty: ty, Outer: outer}
+	}
+	v := term(a, ty)
+	v.Outer = outer
+	return v
+}
+
+// resolveLocal: a pointer into a local variable; if the variable has been materialised on this path,
+// the corresponding heap pointer.
+func (e *Enc) resolveLocal(st *State, v Val) Val {
+	if v.K != vLocal || v.Alloc == nil {
+		return v
+	}
+	a, ok := st.mat[v.Alloc]
+	if !ok {
+		return v
+	}
+	return e.heapValForPath(a, v.Alloc.Type().(*types.Pointer).Elem(), v.Path, v.Ty)
 }
